@@ -1,0 +1,100 @@
+//go:build verif
+
+package internal
+
+import (
+	"context"
+	"encoding/json"
+	"fmt"
+	"net"
+	"sync/atomic"
+	"testing"
+	"time"
+
+	"github.com/gotid/god/internal/verifdrv"
+	"github.com/gotid/god/lib/breaker"
+	"github.com/gotid/god/lib/logx"
+	"github.com/gotid/god/lib/timex"
+	"google.golang.org/grpc"
+	"google.golang.org/grpc/codes"
+	"google.golang.org/grpc/status"
+	"google.golang.org/grpc/test/bufconn"
+	"google.golang.org/protobuf/types/known/emptypb"
+)
+
+// {"timeout": client timeout in ms, "calls": [[class, code], ...]}: class 0 the backend answers status code at once |
+// 6 the backend overruns the client's timeout (it answers only when the call's context is done).
+type verifC01Case struct {
+	Timeout int64     `json:"timeout"`
+	Calls   [][]int64 `json:"calls"`
+}
+
+// TestVerifDriverC01 drives the COMPOSED client chain exactly as client.buildDialOptions assembles it (tracing,
+// duration, prometheus, breaker, timeout interceptors) over a real gRPC transport (bufconn) against a backend
+// that answers per method name; the breaker's clock is frozen, the client timeout is real time.  Per call:
+// [1 iff cut off by the breaker (ErrServiceUnavailable), gRPC code of what came back (0 nil; -2: not a status)].
+func TestVerifDriverC01(t *testing.T) {
+	logx.Disable()
+	var mode [2]int64
+	lis := bufconn.Listen(1 << 20)
+	srv := grpc.NewServer(grpc.UnknownServiceHandler(func(_ any, stream grpc.ServerStream) error {
+		var in emptypb.Empty
+		if err := stream.RecvMsg(&in); err != nil {
+			return err
+		}
+		// calls are sequential: the driver sets what the backend does with the next call
+		class, code := atomic.LoadInt64(&mode[0]), atomic.LoadInt64(&mode[1])
+		if class == 6 {
+			<-stream.Context().Done()
+			return status.FromContextError(stream.Context().Err()).Err()
+		}
+		if code != 0 {
+			return status.Error(codes.Code(code), "verif")
+		}
+		return stream.SendMsg(&emptypb.Empty{})
+	}))
+	go srv.Serve(lis)
+	defer srv.Stop()
+	n := 0
+	verifdrv.Run(t, func(raw json.RawMessage) any {
+		var c verifC01Case
+		if err := json.Unmarshal(raw, &c); err != nil {
+			return map[string]any{"error": err.Error()}
+		}
+		timex.VerifSetNow(time.Hour)
+		defer timex.VerifClockOff()
+		n++
+		var cli client
+		opts := cli.buildDialOptions(WithTimeout(time.Duration(c.Timeout)*time.Millisecond), WithNonBlock(),
+			WithDialOption(grpc.WithContextDialer(func(ctx context.Context, _ string) (net.Conn, error) {
+				return lis.DialContext(ctx)
+			})))
+		conn, err := grpc.DialContext(context.Background(), "passthrough:///verif-c01-chain", opts...)
+		if err != nil {
+			return map[string]any{"error": err.Error()}
+		}
+		defer conn.Close()
+		// the breaker interceptor names breakers by target + full method: ONE method per case, the backend's answer
+		// is switched by the driver
+		method := fmt.Sprintf("/verif%d.Backend/Call", n)
+		rows := make([][]int64, 0, len(c.Calls))
+		for _, call := range c.Calls {
+			atomic.StoreInt64(&mode[0], call[0])
+			atomic.StoreInt64(&mode[1], call[1])
+			err := conn.Invoke(context.Background(), method, &emptypb.Empty{}, &emptypb.Empty{})
+			row := []int64{0, 0}
+			switch {
+			case err == breaker.ErrServiceUnavailable:
+				row = []int64{1, 100}
+			case err != nil:
+				if st, ok := status.FromError(err); ok {
+					row[1] = int64(st.Code())
+				} else {
+					row[1] = -2
+				}
+			}
+			rows = append(rows, row)
+		}
+		return map[string]any{"rows": rows}
+	})
+}
